@@ -2007,7 +2007,14 @@ def a11(repo: Repo) -> RuleResult:
     for c in lm.classes.values():
         if c is rule_base or not m.is_subclass(c, rule_base):
             continue
-        tc = c.methods.get("target_class")
+        tc = m.lookup(c, "target_class")
+        if tc is not None and tc.cls is rule_base:
+            tc = None  # the abstract declaration of the base
+        has_subclasses = any(o is not c and m.is_subclass(o, c) for o in lm.classes.values())
+        if tc is None and has_subclasses and c.name not in registered:
+            # an abstract intermediate class (template method): its concrete subclasses are the rules
+            res.inst(rule=c.name, abstract=True)
+            continue
         target = None
         if tc is not None:
             for n in ast.walk(tc.node):
@@ -2018,8 +2025,8 @@ def a11(repo: Repo) -> RuleResult:
             res.bad(Finding("A11", lm.rel, c.node.lineno, c.name, "", "this lint rule is never instantiated in Linter.rules(): its warning is never produced", witness="a schema violating exactly this convention lints clean", tag=f"{c.name}:unregistered"))
         if target is None or target not in supported:
             res.bad(Finding("A11", lm.rel, c.node.lineno, c.name, str(target), "target_class() is not one of SUPPORTED_TYPES: Linter.lint never dispatches to this rule", tag=f"{c.name}:target"))
-        chk = c.methods.get("check")
-        if chk is None:
+        chk = m.lookup(c, "check")
+        if chk is None or chk.cls is rule_base:
             res.bad(Finding("A11", lm.rel, c.node.lineno, c.name, "", "no check() method", tag=f"{c.name}:check"))
             continue
         first = chk.node.args.args[1].arg if len(chk.node.args.args) > 1 else "definition"
@@ -2038,12 +2045,12 @@ def a11(repo: Repo) -> RuleResult:
     if lf is None:
         res.unsure("A11: Linter.lint vanished")
     else:
-        from .grammar import inline_generator_loops
+        from .grammar import inline_generator_loops, lower_enumerate_counters
         from .normal import C as K, V, show
         from .pyflow import PyFlow
 
         lmeths = {k: v.node for k, v in linter.methods.items()}
-        lint_node = inline_generator_loops(lf.node, lmeths)
+        lint_node = inline_generator_loops(lower_enumerate_counters(lf.node), lmeths)
         res.inst(rule="Linter.lint", text=short(src_of(lf.node), 160), generator_inlined=lint_node is not lf.node)
         rets = [n for n in ast.walk(lint_node) if isinstance(n, ast.Return) and isinstance(n.value, ast.Name)]
         counter = rets[0].value.id if len(rets) == 1 else None
